@@ -13,6 +13,9 @@
 /* BOUND: string / bytes operands of at most BUILTIN_STR_MAX characters (the character loops are unwound) */
 #define EVAL_EXTRA_CLAUSE __CPROVER_ensures((__exc == 0 && (V_IS(__CPROVER_return_value, LITERAL) || V_IS(__CPROVER_return_value, TABCHAR)) && V_LEVEL(__CPROVER_return_value) == 0 && !V_ISNULL(__CPROVER_return_value)) ==> ((unsigned long *)__CPROVER_return_value->_value.p)[1] <= BUILTIN_STR_MAX)
 #endif
+#ifdef BUILTIN_C10   /* a builtin C10 names: "never read outside the data, and leave their arguments unchanged" is that property's as well */
+#define FRAME_TAGS C05, C10
+#endif
 #include "prelude.h"
 #include "containers.h"
 #ifdef G2C_HAVE_std_complex_double
@@ -45,7 +48,7 @@ ENS_FRAME1
 ENS_FRAME2
 #endif
 #if BUILTIN_NARGS >= 3
-PROP(C05) __CPROVER_ensures((g_eval_n >= 3 && V_LVALUE(A3)) ==> (V_SAME(O3, A3) && (FRAME_IMAG(O3, A3, 2)) && (FRAME_STR(O3, A3, 2))))
+PROP(FRAME_TAGS) __CPROVER_ensures((g_eval_n >= 3 && V_LVALUE(A3)) ==> (V_SAME(O3, A3) && (FRAME_IMAG(O3, A3, 2)) && (FRAME_STR(O3, A3, 2))))
 #endif
 PROP(C05) __CPROVER_ensures(OK ==> (!V_LVALUE(RET) || (g_eval_n >= 1 && RET == O1 && V_LVALUE(A1)) || (g_eval_n >= 2 && RET == O2 && V_LVALUE(A2)) || (g_eval_n >= 3 && RET == O3 && V_LVALUE(A3))))
 #ifdef BUILTIN_TYPE
